@@ -218,8 +218,9 @@ def g_pyval(d):
     raise ValueError(k)
 
 
-def observe_binop(fn):
-    """-> JSON observation of a wrapped binary operation"""
+def observe_binop(fn, reflecting=False):
+    """-> JSON observation of a wrapped binary operation; reflecting: the other operand is a sympy expression whose own
+    operator produced the result (0 * x is simplified to 0 by sympy: still the reflected operation)"""
     import sympy
     try:
         with vlib.time_limit(5):
@@ -238,6 +239,8 @@ def observe_binop(fn):
         return {'crash': '%s: %s' % (type(e).__name__, str(e)[:100])}
     tn = type(r).__name__
     if isinstance(r, sympy.Basic):
+        if reflecting:
+            return {'b': 'BReflected'}
         if isinstance(r, sympy.Rational):
             return {'b': 'BVal', 'v': str(F(int(r.p), int(r.q)))}
         if r.free_symbols:
